@@ -8,9 +8,11 @@ import (
 // observation line per connection; each line is judged like a solo session
 // (the model of a connection does not depend on other connections).
 func emitMulti(c *runCfg, class string, cases []*caseT, schedule []int, free bool) {
+	for _, cs := range cases {
+		cs.class = class
+	}
 	obs := runMulti(cases, schedule, free)
 	for i, cs := range cases {
-		cs.class = class
 		if free {
 			cs.lock = false
 		}
@@ -94,10 +96,14 @@ func runC15(c *runCfg) error {
 			n = 16
 		}
 		cases := g.multiCases(id, cfg, n, 3+g.rng.Intn(8))
-		if id%2 == 0 {
+		switch {
+		case id%2 == 0:
 			emitMulti(c, "interleaved", cases, g.schedule(cases), false)
-		} else {
+		case id%4 == 1:
 			emitMulti(c, "parallel", cases, nil, true)
+		default:
+			// through the real accept loop: all connections are waiting in the listener at once
+			emitMulti(c, "listener_burst", cases, nil, true)
 		}
 	}
 	return nil
